@@ -22,10 +22,13 @@ def setup():
     if rc != 0:
         print(out, err)
         sys.exit(1)
-    rc, out, err = lib.run(["make", "-j%d" % lib.PAR], 3400, cwd=lib.COQ)
+    # -k: a theory file that does not build only matters to the properties that depend on it;
+    # their own checks report it.  Setup itself fails only if nothing can be built.
+    rc, out, err = lib.run(["make", "-k", "-j%d" % lib.PAR], 3400, cwd=lib.COQ)
     sys.stdout.write(out[-3000:])
     sys.stderr.write(err[-3000:])
-    sys.exit(rc)
+    ok = os.path.exists(os.path.join(lib.COQ, "theories", "Machine.vo"))
+    sys.exit(0 if ok else 1)
 
 
 def main():
